@@ -795,3 +795,106 @@ func TestVerifCancelledContext(t *testing.T) {
 	})
 	c.Done()
 }
+
+// Multi-key delete with one shard failing: every named key that lives on a healthy shard is
+// removed (and counted), whatever its position in the argument list; the failure is
+// reported; nothing on the failing shard is reported as deleted.
+func TestVerifShardedDeleteWithFailingShard(t *testing.T) {
+	defer vrt.WriteReport()
+	logx.Disable()
+	stat.SetReporter(nil)
+	if !vrt.Shard(15) {
+		return
+	}
+	c := vrt.NewCases("transparent/kv-multi-delete-with-failing-shard")
+	vrt.RunOnce(vrt.Options{Name: "kv-del-failing-shard"}, func(r *vrt.Run) {
+		pinBreaker()
+		for _, kind := range []string{"kv/100,100", "kv/100,50,10", "kv/7,7,7,7,7"} {
+			w := getWorld(kind)
+			for _, u := range w.suts {
+				for failing := range u.servers {
+					for _, order := range []string{"sorted", "reversed", "failing-first", "failing-last"} {
+						w.reset()
+						for _, p := range populate() {
+							step(r, w.ref, w.suts, p)
+						}
+						where := map[string]int{}
+						var keys []string
+						for si, t := range u.servers {
+							for _, k := range t.s.Keys() {
+								where[k] = si
+								keys = append(keys, k)
+							}
+						}
+						sort.Strings(keys)
+						switch order {
+						case "reversed":
+							for i, j := 0, len(keys)-1; i < j; i, j = i+1, j-1 {
+								keys[i], keys[j] = keys[j], keys[i]
+							}
+						case "failing-first", "failing-last":
+							sort.SliceStable(keys, func(i, j int) bool {
+								fi, fj := where[keys[i]] == failing, where[keys[j]] == failing
+								if order == "failing-first" {
+									return fi && !fj
+								}
+								return !fi && fj
+							})
+						}
+						onFailing := 0
+						for _, k := range keys {
+							if where[k] == failing {
+								onFailing++
+							}
+						}
+						if onFailing == 0 || onFailing == len(keys) {
+							continue
+						}
+						u.servers[failing].s.SetError("ERR verif: shard down")
+						var n int
+						var err error
+						args := make([]reflect.Value, 0, len(keys)+1)
+						name := "Del"
+						if u.ctxForm {
+							name = "DelCtx"
+							args = append(args, reflect.ValueOf(context.Background()))
+						}
+						for _, k := range keys {
+							args = append(args, reflect.ValueOf(k))
+						}
+						out := reflect.ValueOf(u.target).MethodByName(name).Call(args)
+						n = int(out[0].Int())
+						if !out[1].IsNil() {
+							err = out[1].Interface().(error)
+						}
+						u.servers[failing].s.SetError("")
+						var left []string
+						for si, t := range u.servers {
+							if si == failing {
+								continue
+							}
+							left = append(left, t.s.Keys()...)
+						}
+						in := fmt.Sprintf("%s failing-shard=%d keys=%v", u.name, failing, keys)
+						c.Eval(fmt.Sprintf("%s/ctx=%v/failing=%d/%s", kind, u.ctxForm, failing, order), func() any {
+							return map[string]any{"case": in, "deleted_reported": n, "error": fmt.Sprint(err), "left_on_healthy_shards": left}
+						})
+						if len(left) != 0 {
+							c.Violation(in, "keys survive", fmt.Sprintf("keys %v live on healthy shards and were named, but survived the delete (reported %d deleted, error %v)", left, n, err))
+						}
+						if err == nil {
+							c.Violation(in, "error", "one shard failed but no error was reported")
+						}
+						if want := len(keys) - onFailing; n != want {
+							c.Violation(in, "count", fmt.Sprintf("reported %d keys deleted, %d were removed from healthy shards", n, want))
+						}
+						if got := len(u.servers[failing].s.Keys()); got != onFailing {
+							c.Violation(in, "failing shard", fmt.Sprintf("the failing shard holds %d keys afterwards, had %d", got, onFailing))
+						}
+					}
+				}
+			}
+		}
+	})
+	c.Done()
+}
